@@ -309,7 +309,8 @@ def oracle(ck, tier, deep):
                 if name == "O2":          # compact piecewise-cubic rings: tell the integrator where the pieces meet
                     radii = sorted({rb for A_, r0, w, cn in s._peaks for rb in (r0 * sc - 2 * w, r0 * sc, r0 * sc + 2 * w) if rb > 0})
                     brk = sorted({float(np.sqrt(rb * rb - y * y - x * x)) for rb in radii if rb * rb > y * y + x * x}) or None
-                want = los(lambda q: float(F(np.array(y), np.array(q))), x, s.r_max * 1.5 + 20, pts=brk)
+                reach = max([s.r_max * 1.5 + 20] + [r0 * sc + 8 * w for A_, r0, w, cn in s._peaks])     # beyond every peak's tail, however broad
+                want = los(lambda q: float(F(np.array(y), np.array(q))), x, reach, pts=brk)
                 # SampleImage.transform: "tol: relative tolerance of the approximation (max. deviation divided by max. amplitude) …;
                 # the resulting Abel transform is somewhat more accurate" — so within tol of the amplitude of the transform
                 bound = 1e-8 * max(1.0, abs(want)) * max(1.0, (n / 100.0) ** 2) if exact else 1.01 * tol * amp + 1e-8 * max(1.0, abs(want))
